@@ -6,9 +6,12 @@
    (same success/failure and payload for every operation, same abstract state),
    and on both stores a create that fails leaves every read-only call unchanged.
    The etcd half is proved for all histories.  The Redis half is false of the
-   faithful model (C23_redis_refuted, C23_redis_failed_create_changes). *)
+   faithful model (C23_redis_refuted, C23_redis_failed_create_changes); it is
+   proved for all histories whose steps are redis-safe (Spec.redis_safe, a
+   decidable condition on the abstract state): C23_redis_refines_spec_partial,
+   C23_equiv, C23_redis_failed_create_noop_partial. *)
 From Verif Require Import Store.KVPrims Store.Ops Store.Spec Store.EtcdModel Store.RedisModel Store.Case
-  Store.EtcdProofs Store.C23Proofs.
+  Store.EtcdProofs Store.RedisProofs Store.C23Proofs.
 
 Theorem C23_etcd_refines_spec : etcd_refines_spec_stmt.
 Proof. exact etcd_refines_spec_holds. Qed.
@@ -33,3 +36,15 @@ Print Assumptions C23_redis_refuted.
 Theorem C23_redis_failed_create_changes : redis_failed_create_changes_stmt.
 Proof. exact redis_failed_create_changes_holds. Qed.
 Print Assumptions C23_redis_failed_create_changes.
+
+Theorem C23_redis_refines_spec_partial : redis_refines_spec_partial_stmt.
+Proof. exact redis_refines_spec_partial_holds. Qed.
+Print Assumptions C23_redis_refines_spec_partial.
+
+Theorem C23_equiv : equiv_stmt.
+Proof. exact equiv_holds. Qed.
+Print Assumptions C23_equiv.
+
+Theorem C23_redis_failed_create_noop_partial : redis_failed_create_noop_partial_stmt.
+Proof. exact redis_failed_create_noop_partial_holds. Qed.
+Print Assumptions C23_redis_failed_create_noop_partial.
